@@ -338,6 +338,16 @@ pub fn mon_c14(out: &mut Out, l: &str, r: &str) {
     if svc.iter().take(good.len()).any(|s| matches!(s, Svc::Reply(r) if spec::response_bytes(r).is_none_or(|b| b.len() > 253))) {
         return;
     }
+    // "served" includes the replies: everything owed for the complete requests has been
+    // written before the connection ends (replies that cannot be encoded were excluded above)
+    if let Some(owed) = expected_log(kind, &good, &svc) {
+        let got = merge_writes(&ps[..ps.len().saturating_sub(1)]);
+        let ok = got.len() >= owed.len() && got[..owed.len()] == owed[..];
+        out.check(ok, || {
+            let i = got.iter().zip(owed.iter()).position(|(a, b)| a != b).unwrap_or(got.len().min(owed.len()));
+            format!("the complete requests before the end of the connection were not all served and answered: entry {i}: expected `{}` got `{}`", super::codec::trunc(owed.get(i).map_or("<nothing>", |s| s)), super::codec::trunc(got.get(i).map_or("<nothing>", |s| s)))
+        }, l);
+    }
     let last_ev = field("r", fields).rsplit(',').next().unwrap_or("");
     if clean_end {
         out.check(calls == expect_calls, || format!("served requests differ from the complete requests received: {} vs {}", calls.len(), expect_calls.len()), l);
